@@ -85,6 +85,22 @@ def _collect_fields(fm, field_s):
         if f not in field_s:
             _collect_fields(f, field_s)
 
+def _dispose_fields(fm, visited_s):
+    """Releases the solver handles of a field and of all the fields below it"""
+    if id(fm) in visited_s:
+        # Object graphs may be cyclic
+        return
+    visited_s.add(id(fm))
+    if hasattr(fm, "field_l"):
+        for f in fm.field_l:
+            _dispose_fields(f, visited_s)
+        if hasattr(fm, "sum_expr_btor"):
+            fm.size.dispose()
+            fm.sum_expr_btor = None
+            fm.product_expr_btor = None
+    else:
+        fm.dispose()
+
 class _RefFieldCollector(ModelVisitor):
     """Collects the fields referenced by constraint expressions"""
     
@@ -675,7 +691,7 @@ class Randomizer(RandIF):
             for fm in field_model_l:
                 ConstraintOverrideRollbackVisitor.rollback(fm)
                 # Solver handles must not outlive the call, however it ends
-                fm.dispose()
+                _dispose_fields(fm, set())
 
         visited = [] 
         for fm in field_model_l:
